@@ -2,6 +2,7 @@
 // Copyright RIME Developers
 // Distributed under the BSD License
 //
+#include <filesystem>
 #include <rime/resource.h>
 #include <rime/service.h>
 #include <rime/config/config_compiler.h>
@@ -26,7 +27,22 @@ bool SaveOutputPlugin::ReviewCompileOutput(ConfigCompiler* compiler,
 bool SaveOutputPlugin::ReviewLinkOutput(ConfigCompiler* compiler,
                                         an<ConfigResource> resource) {
   auto file_path = resource_resolver_->ResolvePath(resource->resource_id);
-  return resource->data->SaveToFile(file_path);
+  // write the compiled config under a temporary name in the staging directory,
+  // then move it into place: an interrupted build must not leave a truncated
+  // file (which still carries valid __build_info) under the final name.
+  path temp_path(file_path);
+  temp_path += ".tmp";
+  if (!resource->data->SaveToFile(temp_path)) {
+    return false;
+  }
+  std::error_code ec;
+  std::filesystem::rename(temp_path, file_path, ec);
+  if (ec) {
+    LOG(ERROR) << "failed to save compiled config '" << file_path
+               << "': " << ec.message();
+    return false;
+  }
+  return true;
 }
 
 }  // namespace rime
